@@ -674,6 +674,46 @@ def installs_selected_variant_obligations(repo, chk, rule, why):
            f"_apply installs the recorded code and info of the variant selected by get(): {why}")
 
 
+def fork_own_list_obligations(repo, chk, rule, why):
+    """BaseOverlay.fork() builds the clone through the constructor with the handlers unpacked (the constructor copies them into a list of its own):
+    what tweaking / rewriting / tapping add to a fork never lands in the overlay it was forked from."""
+    import ast
+    from ..astq import expand, returns_of
+    from ..core import norm
+    fk = repo.func("overlay.BaseOverlay.fork")
+    ctor_names = {"type(self)", "self.__class__"} | {c.rsplit(".", 1)[-1] for c in repo.classes if "overlay.BaseOverlay" in repo.mro(c)}
+    rets = returns_of(fk.node)
+
+    def fresh_overlay(v):
+        v_ = ast.parse(expand(v, fk.node), mode="eval").body if v is not None else None
+        return isinstance(v_, ast.Call) and norm(v_.func) in ctor_names and not v_.keywords and len(v_.args) == 1 and isinstance(v_.args[0], ast.Starred) \
+            and norm(v_.args[0].value) == "self.handlers"
+    chk.ob(rule, "overlay.BaseOverlay.fork:a-new-overlay-with-its-own-list", bool(rets) and all(fresh_overlay(r_.value) for r_ in rets), fk.where,
+           f"fork() goes through the constructor with the handlers unpacked (returns: {[norm(r_.value) for r_ in rets]}): {why}")
+
+
+def tag_table_read_obligations(repo, chk, rule, why):
+    """Call.all_tags is a defaultdict kept by cached_property on an interned selector: reading it with a subscript INSERTS the missing key for every
+    later reader of that selector (the focus pattern is decided by which keys are present).  Outside its own construction the table is only
+    iterated, tested with `in` / .get / .items / .keys / .values, or converted."""
+    import ast
+    from ..core import norm, walk_local
+    reads, bad = 0, []
+    for q, fi in sorted(repo.functions.items()):
+        if q.endswith(".all_tags"):
+            continue
+        for n in walk_local(fi.node):
+            if isinstance(n, ast.Attribute) and n.attr == "all_tags":
+                reads += 1
+                par = getattr(n, "_parent", None)
+                if isinstance(par, ast.Subscript) and par.value is n:
+                    bad.append(f"{q}: {norm(par)}")
+                elif isinstance(par, ast.Attribute) and par.attr in ("setdefault", "pop", "update", "clear", "__getitem__", "__setitem__"):
+                    bad.append(f"{q}: {norm(par)}")
+    chk.ob(rule, "selector.Call.all_tags:read-without-inserting", reads >= 1 and not bad, "ptera/probe.py, ptera/selector.py",
+           f"the cached tag table of a selector is never subscripted or changed by its readers ({reads} reads): {why}" + (f" -- {bad}" if bad else ""))
+
+
 def fit_memo_obligations(repo, chk, rule, why):
     """HandlerCollection.proceed: whether a function fits a selector level is remembered under the key (function object, selector) -- not under
     its name, its id() (recycled once the function is collected) or anything else several functions can share."""
